@@ -16,18 +16,25 @@
 //! with std's accessor of the same name.
 //! Zero-sized elements have no meaningful addresses: lengths only.
 //!
-//! The chunk families are split by size (division by a symbolic size is what costs CBMC time):
-//! `*_n1` harnesses fix size = 1 and walk L+1 steps, the others take every size in 2..=L+1, where at
-//! most ceil(L/2) items exist, and walk ceil(L/2)+1 steps.
+//! Cost split (one walk of 7 steps with all of the above is 90-250 s in CBMC; the number of encoded
+//! step functions per walk step is what costs, not the arithmetic):
+//!   * `_fwd` harnesses draw the stepped object from {itself, copy}, `_rev` harnesses always step
+//!     through the reversed copy (quick tier); `_mix` harnesses draw from all three in one walk
+//!     (thorough tier, L = 6); `_big` = L = 8 (thorough tier).
+//!   * the chunk families are split by size: `_n1` harnesses fix size = 1 and walk L+1 steps, the
+//!     others take every size in 2..=L+1, where at most ceil(L/2) items exist, and walk
+//!     ceil(L/2)+1 steps (`C08.walk.exhausted_within_bound` re-checks that this is long enough).
+//! Size 0 (N = 0) must panic like std: `c08_zero_size_panics`.
 use crate::hlib::*;
 use konst::slice;
 
-// NOTE for the runner's template discovery: the two templates come first, helper macros after them.
+// NOTE for the runner's template discovery (first `harness!` after a `macro_rules!`): the templates
+// come first, the helper macros (which contain no `harness!`) after them.
 
 macro_rules! c08_q {
     ($name:ident, $($fam:tt)*) => {
         harness! {
-            /// kind=bounded tier=quick bound="slice len<=6 (elements symbolic); windows size 1..=7; chunk size 2..=7 (size 1 in the _n1 twin); array chunk N fixed per harness; walk to exhaustion + 1 step, each step front/back and original/copy/reversed symbolic"
+            /// kind=bounded tier=quick bound="slice len<=6 (elements symbolic); windows size 1..=7; chunk size 2..=7 (size 1 in the _n1 twin); array chunk N fixed per harness; walk to exhaustion + 1 step, each step front/back symbolic; _fwd: stepped object original or copy (symbolic), _rev: always through the reversed copy"
             #[kani::unwind(10)]
             fn $name(s) { c08_body!(s, 6, $($fam)*) }
         }
@@ -37,7 +44,7 @@ macro_rules! c08_q {
 macro_rules! c08_t {
     ($name:ident, $($fam:tt)*) => {
         harness! {
-            /// kind=bounded tier=thorough bound="slice len<=8 (elements symbolic); windows size 1..=9; chunk size 2..=9 (size 1 in the _n1 twin); array chunk N fixed per harness; walk to exhaustion + 1 step, each step front/back and original/copy/reversed symbolic"
+            /// kind=bounded tier=thorough bound="slice len<=8 (elements symbolic); windows size 1..=9; chunk size 2..=9 (size 1 in the _n1 twin); array chunk N fixed per harness; walk to exhaustion + 1 step, each step front/back symbolic; _fwd: stepped object original or copy (symbolic), _rev: always through the reversed copy"
             #[kani::unwind(12)]
             fn $name(s) { c08_body!(s, 8, $($fam)*) }
         }
